@@ -369,6 +369,15 @@ def aggregator_rounds(case):
                     np.asarray(jax.tree_util.tree_leaves(t)[li], np.float64).min()) / (levels - 1) for t in trees]
           require(bool(np.all(np.abs(g - exact) <= max(steps) * (1 + 1e-5) + 1e-6)), name + ': aggregate further than the '
                   'largest per-client grid step from the exact weighted mean', exact.tolist(), g.tolist(), case=nc)
+      if name == 'drive' and seam_ok:
+        # structured DRIVE: x_hat = S * R^-1 sign(R x) with S = |x|^2 / |R x|_1, hence <x_hat, x> = |x|^2 for every leaf of
+        # every client (an inverse rotation that does not undo the forward one breaks this identity)
+        for ci, (q, t) in enumerate(zip(recorded, trees)):
+          for ql, tl in zip(jax.tree_util.tree_leaves(q), jax.tree_util.tree_leaves(t)):
+            x = np.asarray(tl, np.float64).ravel()
+            dot, n2 = float(np.asarray(ql, np.float64).ravel() @ x), float(x @ x)
+            require(abs(dot - n2) <= 1e-4 * (1 + n2), 'drive: <x_hat, x> != |x|^2 for a leaf of client %d (the decoded vector is '
+                    'not the scaled inverse rotation of the signs)' % ci, n2, dot, case=nc)
       require(len(set(keys)) == len(keys), name + ': two clients were quantised with the same key', case=nc)
       all_keys += keys
       inc = float(new.num_bits) - float(state.num_bits)
